@@ -20,8 +20,8 @@ PROPS = {
  "C15": dict(needs=["ImpSearch", "ImportProofs"], gen=[], slices=[("slices_world", "c15_search"), ("slices_world", "c15_semantics")]),
  "C06": dict(needs=CORE + ["Float", "Eq"], gen=[], slices=[("slices_values", "c06_eq")]),
  "C12": dict(needs=CORE + ["SeqProofs", "SliceReal"], gen=[], slices=[("slices_values", "c12_seq")]),
- "C16": dict(needs=CORE + ["RunG", "Codec", "Bits"], gen=[], slices=[("slices_values", "c16_codecs")]),
- "C17": dict(needs=CORE + ["RunG", "Codec", "Bits", "LinkBits"], gen=["GenBitwise"], slices=[("slices_values", "c17_bits")]),
+ "C16": dict(needs=CORE + ["RunG", "Codec", "Bits", "Utf"], gen=[], slices=[("slices_values", "c16_codecs")]),
+ "C17": dict(needs=CORE + ["RunG", "Codec", "Bits", "LinkBits", "Float", "RoundProofs"], gen=["GenBitwise"], slices=[("slices_values", "c17_bits")]),
  "C18": dict(needs=CORE + ["PrintInt"], gen=[], slices=[("slices_values", "c18_print"), ("slices_values", "c18_cli")]),
  "C13": dict(needs=REFINE + ["RunG", "Exc", "Once"], gen=[], slices=[("slices_core", "c13_once"), ("slices_core", "core_programs")]),
  "C04": dict(needs=CORE + ["Events", "Progress", "NumProofs", "Lex", "ParseProofs", "LinkErr"], gen=["GenErr", "GenParse"], slices=[("slices_faults", "c04_sweep"), ("slices_world", "c14_faults"), ("slices_world", "c15_semantics"), ("slices_text", "c09_parse"), ("slices_core", "core_programs")]),
